@@ -24,7 +24,8 @@ META = dict(
     functions=['get_completion_expression', 'TaskOutputs.__init__/add/'
                'set_message_complete/is_complete', 'CompletionEvaluator '
                '(restricted_evaluator._eval)', 'TaskPool.remove_if_complete',
-               'TaskPool.remove'],
+               'TaskPool.remove', 'TaskPool.spawn_on_output (removal of the '
+               'parent on every path: flow-wait, no-flow, transient)'],
     bounds=['all 1350 valid declarations over succeeded/failed/submitted/'
             'submit-failed/expired/started + custom x,y (required / optional '
             '/ unreferenced)',
@@ -221,6 +222,46 @@ def remove_if_complete(st: int, c_x: bool, c_suc: bool, c_fail: bool,
             and any(t is other for t in pool.get_tasks()))
 
 
+SPAWN_OUTS = ['succeeded', 'failed', 'xx', 'expired', 'submitted',
+              'submit-failed', 'started']
+
+
+def spawn_removal(st: int, flow_wait: bool, flows: bool, out: int,
+                  c_x: bool, c_suc: bool, c_fail: bool, in_pool: bool) -> bool:
+    """
+    pre: sl(out=out, flow_wait=flow_wait, flows=flows)
+    pre: 0 <= st < 8 and 0 <= out < len(SPAWN_OUTS)
+    post: _
+    """
+    # the path every natural / forced output takes: TaskPool.spawn_on_output
+    # (children spawned for real) must end by removing the parent iff it is
+    # finished and complete - whatever the flow-wait / no-flow state.
+    with concrete():
+        pool = fx.pool(CFG)
+        itask = fx.itask(CFG, 'a', 2)
+        other = fx.itask(CFG, 'c', 4)
+        pool.add_to_pool(other)
+        output = SPAWN_OUTS[SLICE.get('out', 0)]
+    if out != SLICE.get('out', 0):
+        return True
+    if in_pool:
+        pool.add_to_pool(itask)     # else: transient (cylc set on a non-pool task)
+    itask.state.status = fx.STATUSES[st]
+    itask.flow_wait = flow_wait
+    if not flows:
+        itask.flow_nums = set()
+    for m, c in (('xx', c_x), ('succeeded', c_suc), ('failed', c_fail)):
+        if c:
+            itask.state.outputs.set_message_complete(m)
+    final = fx.STATUSES[st] in ('succeeded', 'failed', 'submit-failed',
+                                'expired')
+    pool.spawn_on_output(itask, output)
+    still = any(t is itask for t in pool.get_tasks())
+    want_still = in_pool and not (final and c_suc)
+    return still == want_still and any(
+        t is other for t in pool.get_tasks())
+
+
 def OBLIGATIONS(tier):
     big = tier == 'thorough'
     t = 1200 if big else 150
@@ -233,6 +274,13 @@ def OBLIGATIONS(tier):
         obs.append(Ob(f'user_expr[{ui}]', 'user_expr', timeout=t,
                       slice={'ui': ui}))
     obs.append(Ob('remove_if_complete', 'remove_if_complete', timeout=t))
+    for out in range(len(SPAWN_OUTS)):
+        for fw in (False, True):
+            for fl in (False, True):
+                obs.append(Ob(
+                    f'spawn_removal[{SPAWN_OUTS[out]},wait={fw},flows={fl}]',
+                    'spawn_removal', timeout=t,
+                    slice={'out': out, 'flow_wait': fw, 'flows': fl}))
     return obs
 
 
@@ -263,5 +311,10 @@ def VALIDATE():
     for st in range(8):
         assert remove_if_complete(st, False, True, False, False, 0)
         assert remove_if_complete(st, True, False, True, False, 1)
+        n += 2
+        SLICE['out'] = 0
+        assert spawn_removal(st, False, True, 0, False, True, False, True)
+        assert spawn_removal(st, True, True, 0, True, False, True, True)
+        SLICE.clear()
         n += 2
     return n
